@@ -92,12 +92,50 @@ class TlcResult:
 _cov_re = re.compile(r"^<(\w+) line (\d+), col \d+ to line \d+, col \d+ of module (\w+)>: (\d+):(\d+)")
 
 
+def _run_watchdog(cmd, env, timeout, startup_timeout):
+    """Run TLC; kill it if it has not computed its initial states `startup_timeout` seconds after start
+    (TLC 1.8 occasionally fails evaluating an ASSUME over big imported data and then spends tens of
+    minutes formatting the error). Returns (stdout, returncode, None | "startup-hang" | "timeout")."""
+    import threading
+    proc = subprocess.Popen(cmd, cwd=SPEC, env=env, stdout=subprocess.PIPE, stderr=subprocess.STDOUT, text=True)
+    lines = []
+    started = {"init": False}
+
+    def reader():
+        for line in proc.stdout:
+            lines.append(line)
+            if ("initial state" in line) or ("Progress" in line) or ("Model checking completed" in line) \
+                    or line.startswith("Error") or ("states generated" in line):
+                started["init"] = True
+
+    th = threading.Thread(target=reader, daemon=True)
+    th.start()
+    t0 = time.time()
+    why = None
+    while proc.poll() is None:
+        time.sleep(0.5)
+        el = time.time() - t0
+        if not started["init"] and el > startup_timeout:
+            why = "startup-hang"
+            break
+        if el > timeout:
+            why = "timeout"
+            break
+    if why:
+        proc.kill()
+    proc.wait()
+    th.join(timeout=5)
+    return "".join(lines), proc.returncode, why
+
+
 def tlc(module, cfg=None, env=None, workers=8, simulate=None, depth=None, timeout=1800,
         metadir=None, xss="256m", xmx="8g", extra=None, deque=False, coverage=True, seed=None,
-        want_dump=None):
+        want_dump=None, startup_timeout=240):
     """Run TLC on /verif/spec/<module>.tla with /verif/spec/<cfg>. Returns TlcResult.
     A timeout or a crash of TLC raises ToolError (never a pass, never a violation)."""
     cfg = cfg or (module + ".cfg")
+    if simulate:
+        workers = 1   # TLC 1.8 -simulate with several workers intermittently fails while evaluating ASSUMEs (observed 3 of 4 runs)
     metadir = metadir or os.path.join(WORK, "tlc", "%s-%d-%d" % (module, os.getpid(), int(time.time() * 1000) % 100000000))
     os.makedirs(metadir, exist_ok=True)
     jopts = "-Xss%s" % xss
@@ -127,12 +165,23 @@ def tlc(module, cfg=None, env=None, workers=8, simulate=None, depth=None, timeou
     r = TlcResult()
     r.cmd = " ".join(cmd)
     t0 = time.time()
-    try:
-        p = subprocess.run(cmd, cwd=SPEC, env=e, stdout=subprocess.PIPE, stderr=subprocess.STDOUT,
-                           text=True, timeout=timeout)
-    except subprocess.TimeoutExpired:
+    out, rc = None, None
+    for attempt in range(3):
+        out, rc, why = _run_watchdog(cmd, e, timeout, startup_timeout)
+        if why is None:
+            break
+        log("[tlc] %s: %s (attempt %d)" % (module, why, attempt + 1))
         shutil.rmtree(metadir, ignore_errors=True)
-        raise ToolError("TLC timeout after %ds: %s" % (timeout, r.cmd))
+        os.makedirs(metadir, exist_ok=True)
+        if why == "timeout":
+            raise ToolError("TLC timeout after %ds: %s" % (timeout, r.cmd))
+    else:
+        raise ToolError("TLC did not get past start-up in 3 attempts: %s" % r.cmd)
+
+    class _P:
+        pass
+    p = _P()
+    p.stdout, p.returncode = out, rc
     r.wall = time.time() - t0
     out = p.stdout
     r.stdout = out
